@@ -330,6 +330,15 @@ COMPOSITE_AROMATIC = ['c1ccccc1', 'c1ccc2ccccc2c1', 'c1ccc2c(c1)ccc1ccccc12', 'c
 RULE_REPAIRED = ['O=n1ccccc1', 'N=n1ccccc1', '[O-][s+]1cccc1', 'O=n1ccn(=O)cc1', 'O=n1ccncc1', 'c1ccn(-[Fe])c1', 'O=n1ccc2ccccc2c1']
 
 
+# several hydrogen donors of the tautomer search of thiele() in one molecule (round 5): six-ring N-H donors that have NO reachable
+# acceptor (pyridones, thiopyridone, quinolones: the search for them ends without a path) together with donors the search can fix
+# (N-H six-ring fused with an all-sp2 five-ring that holds a pyridine-type N); both orders, so that an unfixable donor comes
+# before and after a fixable one in the SSSR order
+UNFIXABLE_DONORS = ['O=C1C=CNC=C1', 'O=C1NC=CC=C1', 'S=C1C=CNC=C1', 'O=C1C=CNc2ccccc12', 'O=C1NC=Cc2ccccc12', 'CC1=CC(=O)C=CN1']
+FIXABLE_DONORS = ['N1C=CC2=NC=CC2=C1', 'C1=CC2=NC=CC2=CN1', 'N1C=CC2=CC=NC2=C1', 'N1C=NC2=NC=CC2=C1', 'N1C=CC2=NC=CC2=N1']
+PIPED_LABELS = set()        # composites that always go through the whole pipeline (models of thiele / kekule included)
+
+
 def compose(sa, sb, rng, join):
     """the two molecules in one container (atoms of the second renumbered behind the first); join: additionally a single bond
     between a CH carbon of each.  Returned as the SMILES chython writes for it (the label every replay starts from)."""
@@ -354,6 +363,11 @@ def composites(rng, n_random):
         pairs.append((x, y) if j % 2 else (y, x))
     for j, (x, y) in enumerate(itertools.product(RULE_REPAIRED, RULE_REPAIRED[:3] + COMPOSITE_AROMATIC[:4])):
         pairs.append((x, y) if j % 2 else (y, x))
+    n_before = len(pairs)
+    for x, y in itertools.product(UNFIXABLE_DONORS, FIXABLE_DONORS):
+        pairs.append((x, y))
+        pairs.append((y, x))
+    donor_pairs = set(pairs[n_before:n_before + 8])
     pool = RULE_AROMATISED + PARTLY_SATURATED + COMPOSITE_AROMATIC + RULE_REPAIRED
     for _ in range(n_random):
         pairs.append((rng.choice(pool), rng.choice(pool)))
@@ -366,6 +380,8 @@ def composites(rng, n_random):
                 lab = None
             if lab:
                 out.append((lab, join))
+                if (x, y) in donor_pairs:
+                    PIPED_LABELS.add(lab)
     return list(dict.fromkeys(out))
 
 
@@ -1990,7 +2006,7 @@ def run(ck):
             ck.count(f'input-rejected-by-parser:{type(e).__name__}')
             continue
         ck.count(f'composite:{"joined by a single bond" if joined else "two fragments"}')
-        if j in piped:
+        if j in piped or label in PIPED_LABELS:
             guarded('composite', label, mc)
         else:
             light_oracles(ck, pipe, label, mc)
